@@ -22,5 +22,6 @@ def dual_mesh(mesh: SurfaceMesh, mode:str = "barycenter") -> SurfaceMesh:
     for F in mesh.id_faces:
         out.vertices.append(dual_pts[F])
     for V in mesh.id_vertices:
+        if mesh.is_vertex_on_border(V): continue # the faces around a border vertex do not close up
         out.faces.append(mesh.connectivity.vertex_to_faces(V))
     return _instanciate_raw_mesh_data(out, 2)
